@@ -692,14 +692,32 @@ def C10.holdbackBad (c : Ctx) (obsDelta : Int) (j : Journal) : List String :=
         ["nodes " ++ toString (left.map (·.name)) ++ " are past their grace period and removable, but were not sent for termination in a scan that has the protected node(s) " ++
          toString ((tainted.filter protectedNode).map (·.name)) ++ " in view"]
 
+/-- scale_on_starve as documented ("a pod that cannot currently be scheduled due to no node having
+    capacity to run it"): some pending pod asks, in CPU or in memory, for more than nothing and for
+    more than any untainted node has left. -/
+def starvedPod (pods : List Pod) (unt : List Node) (p : Pod) : Bool :=
+  let r := podRequest p
+  (r.cpu > 0 && unt.all (fun n => r.cpu > (nodeAvail pods n).cpu)) ||
+  (r.mem > 0 && unt.all (fun n => r.mem > (nodeAvail pods n).mem))
+
+def starved (pods : List Pod) (unt : List Node) : Bool :=
+  (pods.filter (fun p => p.phase == "Pending")).any (starvedPod pods unt)
+
 /-- The decision itself (the delta the scan settles on), in every mode including dry mode, against the
     exact utilisation over the untainted uncordoned nodes: −fast / −slow / 0 / positive by band. Judged when
-    the group is unlocked, within its node-count bounds, at or above its minimum and no trigger is configured. -/
+    the group is unlocked, within its node-count bounds, at or above its minimum and neither documented trigger can fire. -/
 def decisionBad (c : Ctx) (obsDelta : Int) : List String :=
   let unt := nodesOf c.dry c.st .untainted c.view.nodes
+  let tainted := nodesOf c.dry c.st .tainted c.view.nodes
   let n : Int := c.view.nodes.length
+  -- the two documented triggers may raise the decision to 1: the band rule is judged only where neither can fire. The starve
+  -- trigger fires exactly under the documented condition (`C06_starve_iff`); the age trigger reads the real clock a little after
+  -- the harness did, so a node within two seconds of max_node_age counts as "may fire"
+  let starveMay := c.cfg.scaleOnStarve && decide ((unt.length : Int) < c.st.maxEff) && starved c.view.pods unt
+  let ageMay := decide (c.cfg.maxAgeNs > 0) && decide ((unt.length : Int) = c.st.minEff) && unt.length != 0 && tainted.length == 0 &&
+    unt.any (fun nd => c.nowReal - nd.created * 1000000000 > c.cfg.maxAgeNs - 2000000000)
   if lockHeld c.st.lock c.cfg.coolNs c.nowReal || n < c.st.minEff || n > c.st.maxEff ||
-     (unt.length : Int) < c.st.minEff || c.cfg.scaleOnStarve || c.cfg.maxAgeNs > 0 then []
+     (unt.length : Int) < c.st.minEff || starveMay || ageMay then []
   else
     match exactUtil c with
     | none => []
@@ -782,17 +800,6 @@ def C05.badFromZero (c : Ctx) (seen : Option (Int × Int)) (obsDelta : Int) : Li
       if obsDelta < need then ["from-zero-short:need-" ++ toString need ++ "-decided-" ++ toString obsDelta]
       else if obsDelta > need + 1 then ["from-zero-over:need-" ++ toString need ++ "-decided-" ++ toString obsDelta]
       else []
-
-/-- scale_on_starve as documented ("a pod that cannot currently be scheduled due to no node having
-    capacity to run it"): some pending pod asks, in CPU or in memory, for more than nothing and for
-    more than any untainted node has left. -/
-def starvedPod (pods : List Pod) (unt : List Node) (p : Pod) : Bool :=
-  let r := podRequest p
-  (r.cpu > 0 && unt.all (fun n => r.cpu > (nodeAvail pods n).cpu)) ||
-  (r.mem > 0 && unt.all (fun n => r.mem > (nodeAvail pods n).mem))
-
-def starved (pods : List Pod) (unt : List Node) : Bool :=
-  (pods.filter (fun p => p.phase == "Pending")).any (starvedPod pods unt)
 
 /-- The scale_on_starve exception: with the option on, a starved pod and room below max_nodes, the scan
     must not taint and its decision must be a scale-up of at least one node. Judged under the same
